@@ -36,8 +36,6 @@ import (
 	"runtime/debug"
 	"strings"
 	"time"
-
-	"github.com/mdzio/go-mqtt/service"
 )
 
 type lifeCore struct{}
@@ -366,8 +364,6 @@ func (lifeCore) handle(ws []string) string {
 	}
 	return "bad-op"
 }
-
-var _ = service.DefaultKeepAlive
 
 // genLife: the cause x condition matrix of the property's quantifier (idle, own outgoing ring full, incoming ring
 // full behind a third party's full outgoing ring) with the subject ending first; quick = the first n lines
